@@ -176,7 +176,7 @@ func runC16(tier string, seed uint64) {
 			l = logical{method: "PUT", bucket: b}
 			if rng.Intn(3) == 0 {
 				// names create-bucket must refuse, in whatever form the request arrives (host names are not case-folded)
-				l.bucket = []string{"AzA", "aaA", "A-9", "a_b", "ab", "-ab"}[rng.Intn(6)]
+				l.bucket = []string{"AzA", "aaA", "A-9", "a_b", "ab", "-ab", "logs.bucket", "aaa.bbb", "logs.bucket", "a-1.b-2.c-3"}[rng.Intn(10)] // (and valid names of several labels, which only path-style addressing can carry)
 			}
 		case w < 24:
 			l = logical{method: "PUT", bucket: b, key: k, body: []byte(fmt.Sprintf("body-%d", i)), hdr: [][2]string{{"X-Amz-Meta-I", strconv.Itoa(i)}}}
@@ -294,6 +294,15 @@ func runC16(tier string, seed uint64) {
 				path = l.pathStyle("//", "")
 			case "path-trailing-slash":
 				path = l.pathStyle("", "/")
+			}
+			if strings.Contains(l.bucket, ".") && path != l.pathStyle("", "") && !strings.HasPrefix(t.name, "path-") {
+				// a bucket name of several labels cannot be the single label of a host: it is addressed path-style,
+				// through a host that is no "<label>.<base>" (the plain host-bucket server has no such host)
+				if t.mode == "host" {
+					continue
+				} else {
+					host, path = "x.y."+strings.TrimLeft(strings.Trim(bases[0], "."), "."), l.pathStyle("", "")
+				}
 			}
 			t.rec.reset()
 			r := do(t.h, Req{Method: l.method, Path: path, Host: host, Header: l.hdr, Body: l.body})
